@@ -1,5 +1,6 @@
 from __future__ import annotations
 
+import copy
 import random
 import re
 import string
@@ -244,8 +245,9 @@ class SigmaFilter(SigmaRuleBase):
         prefix = "_filt_" + "".join(random.choices(string.ascii_lowercase, k=10))
 
         # Rename every filter detection identifier with the shared prefix.
+        # Every rule gets detection objects of its own: processing pipelines change them in place.
         for original_cond_name, condition in self.filter.detections.items():
-            rule.detection.detections[prefix + "_" + original_cond_name] = condition
+            rule.detection.detections[prefix + "_" + original_cond_name] = copy.deepcopy(condition)
 
         # Rewrite the filter condition string so that every identifier/pattern token is
         # prefixed.  This handles:
@@ -276,8 +278,12 @@ class SigmaFilter(SigmaRuleBase):
             self.filter.condition[0],
         )
 
-        for i, condition_str in enumerate(rule.detection.condition):
-            rule.detection.condition[i] = f"({condition_str}) and " + f"({filter_condition})"
+        # (a new list: the condition list may be shared with other rules, e.g. through a global
+        # action document that was merged into several rules)
+        rule.detection.condition = [
+            f"({condition_str}) and " + f"({filter_condition})"
+            for condition_str in rule.detection.condition
+        ]
 
         # Reparse the rule to update the parsed conditions
         rule.detection.__post_init__()
